@@ -308,3 +308,97 @@ func fullUnconditionalLoop(u *U, s *Summary, loops []*Loop, site ssa.Instruction
 }
 
 func hasSuffixName(name, suf string) bool { return strings.HasSuffix(name, suf) }
+
+// LoopSum is the summary "some iteration leaves the loop early" of a pure
+// search loop (complete range, the only early exits depend on the current
+// element).  Any is a fresh atom standing for "exists an element for which the
+// early-exit test holds".
+type LoopSum struct {
+	L     *Loop
+	Cont  Ref
+	Early Ref // condition of taking an early exit in the current iteration
+	Any   Ref
+	Coll  *E
+	Elem  []*E // atoms of Early that mention the loop-variant values
+	Why   string // non-empty: the loop does not qualify
+}
+
+// summariseLoops builds the summaries of all loops of fn.
+func summariseLoops(u *U, s *Summary, fn *ssa.Function) []*LoopSum {
+	var out []*LoopSum
+	for i, l := range loopsOf(fn) {
+		ls := &LoopSum{L: l, Cont: contCond(u, s, l)}
+		out = append(out, ls)
+		ro := rangedOver(l)
+		if ro == nil || !ro.Full {
+			ls.Why = "not a complete range over a collection"
+			continue
+		}
+		ls.Coll = s.Env[ro.Coll]
+		for _, ef := range s.Effects {
+			if ef.Ins != nil && l.Blocks[ef.Ins.Block()] && ef.Fn == fn {
+				if ef.Kind == "store" && ef.Local {
+					continue
+				}
+				if ef.Kind == "store" || ef.Kind == "mapupdate" || ef.Kind == "call" || ef.Kind == "send" {
+					ls.Why = "the loop body has side effects"
+				}
+			}
+		}
+		for _, ex := range l.Exits {
+			if ex[0] == l.Header {
+				continue
+			}
+			ls.Early = u.bdd.Or(ls.Early, edgeCondOf(u, s, ex[0], ex[1]))
+		}
+		if ls.Early == False {
+			ls.Why = "no early exit"
+			continue
+		}
+		contAtoms := map[int]bool{}
+		for _, v := range u.bdd.Support(ls.Cont) {
+			contAtoms[v] = true
+		}
+		for _, v := range u.bdd.Support(ls.Early) {
+			at := u.atoms[v]
+			if contAtoms[v] {
+				continue
+			}
+			variant := u.Mentions(at, func(x *E) bool {
+				return x.Op == "loopphi" || x.Op == "loopval" || x.Op == "rangeval" || x.Op == "rangekey" || (x.Op == "index" && ls.Coll != nil && x.Args[0] == ls.Coll)
+			})
+			if variant {
+				ls.Elem = append(ls.Elem, at)
+			}
+		}
+		ls.Any = u.Atom(u.mk("anyiter", fmt.Sprintf("%s#%d", FuncName(fn), i), types.Typ[types.Bool], ls.Coll))
+	}
+	return out
+}
+
+// Apply rewrites a condition reached inside / after the summarised loops:
+// loop-control and per-element atoms are replaced by the loop's Any atom.
+func applyLoopSums(u *U, sums []*LoopSum, c Ref) Ref {
+	c0 := c
+	for _, ls := range sums {
+		if ls.Why != "" {
+			continue
+		}
+		strip := func(f Ref) Ref {
+			for _, v := range u.bdd.Support(ls.Cont) {
+				f = u.bdd.Exists(f, v)
+			}
+			for _, at := range ls.Elem {
+				f = u.bdd.Exists(f, u.atomIx[at.key])
+			}
+			return f
+		}
+		switch {
+		case u.bdd.Implies(c0, ls.Early):
+			c = u.bdd.And(strip(c), ls.Any)
+		case u.bdd.Implies(c0, u.bdd.Not(ls.Cont)):
+			c = u.bdd.And(strip(c), u.bdd.Not(ls.Any))
+		}
+	}
+	return c
+}
